@@ -1,6 +1,6 @@
 """C04 — certificates accepted exactly when backed by a quorum. Certs.tla states validity; MC_Certs enumerates, per committee, every
 signer subset x chain binding x bitmap length x signature corruption (commit certificates), every two-group split x corruption
-(timeout certificates) and every sequence of <=3 incremental adds, each with the SPEC's verdict; certs_replay materialises each case
+and every assignment of validators to subsets of three reports (timeout certificates; overlapping, non-adjacent groups) and every sequence of <=3 incremental adds, each with the SPEC's verdict; certs_replay materialises each case
 with real BLS keys/signatures and compares accept/reject of the real verify()/add() (T3)."""
 import os
 import time
@@ -34,8 +34,8 @@ def _gen(comm, mode):
 
 def _plan(tier):
     if tier == "quick":
-        return [("W4", "cqc"), ("W4", "tqc"), ("W4", "add2"), ("U6", "cqc"), ("S2", "cqc"), ("S2", "tqc"), ("U4", "add3")]
-    return [(c, m) for c in ["W4", "U4", "U6", "S2", "W5b"] for m in ["cqc", "tqc", "add3"] if not (c in ("U6", "W5b") and m == "add3")] + [("U6", "add2")]
+        return [("W4", "cqc"), ("W4", "tqc"), ("W4", "tqc3"), ("U4", "tqc3"), ("W4", "add2"), ("U6", "cqc"), ("S2", "cqc"), ("S2", "tqc"), ("U4", "add3")]
+    return [(c, m) for c in ["W4", "U4", "U6", "S2", "W5b"] for m in ["cqc", "tqc", "add3"] if not (c in ("U6", "W5b") and m == "add3")] + [("U6", "add2"), ("W4", "tqc3"), ("U4", "tqc3"), ("S2", "tqc3")]
 
 
 def run(tier, seed):
